@@ -14,6 +14,7 @@ using namespace vf;
 static Run* R;
 static tm FIXED_TM;
 
+static bool is_error(gdstk::ErrorCode e) { return (int)e >= (int)gdstk::ErrorCode::ChecksumError; }
 struct CorpusFile {
     std::string name, kind;  // kind: "gds" | "oas"
     std::string bytes;
@@ -186,6 +187,46 @@ static void build_corpus(bool thorough) {
         }
     }
     unlink(tmp.c_str());
+    // ---- independently encoded files (specification-derived codecs, no gdstk): codec/c18_files.py
+    {
+        const char* vd = getenv("VERIF_DIR");
+        std::string dir = R->scratch + "/indep";
+        std::string cmd = std::string("python3 '") + (vd ? vd : "/verif") + "/codec/c18_files.py' '" + dir + "' >/dev/null 2>&1";
+        if (system(cmd.c_str()) != 0) { R->internal_error("independent file generator failed: " + cmd); return; }
+        FILE* idx = fopen((dir + "/index.txt").c_str(), "r");
+        if (!idx) { R->internal_error("no index of independently encoded files"); return; }
+        char name[256], kind[16];
+        int sgn;
+        while (fscanf(idx, "%255s %15s %d", name, kind, &sgn) == 3) {
+            CorpusFile f;
+            f.name = name;
+            f.kind = kind;
+            f.signed_oas = sgn != 0;
+            std::string path = dir + "/" + name;
+            f.bytes = slurp(path);
+            if (f.bytes.empty()) { R->internal_error(std::string("empty independent file ") + name); continue; }
+            if (f.kind == "gds") {
+                parse_records(f);
+                ErrorCode ec = gds_units(path.c_str(), f.unit, f.precision);
+                ErrorCode tc = ErrorCode::NoError;
+                f.stamp = gds_timestamp(path.c_str(), NULL, &tc);
+                ErrorCode le = ErrorCode::NoError;
+                Library lib = read_gds(path.c_str(), 0, 1e-2, NULL, &le);
+                bool loads = !is_error(le);
+                lib.free_all();
+                if (ec != ErrorCode::NoError || tc != ErrorCode::NoError || !loads)
+                    R->violation("control.gds", "complete-file", {{"file", jstr(f.name)}}, jobj({{"file", jstr(f.name)}}), "complete independently encoded GDSII file is not readable", "sub=control");
+            } else {
+                ErrorCode vc = ErrorCode::NoError;
+                uint32_t sig = 0;
+                bool ok = oas_validate(path.c_str(), &sig, &vc);
+                if (!ok || (f.signed_oas && vc == ErrorCode::ChecksumError) || (!f.signed_oas && vc != ErrorCode::ChecksumError))
+                    R->violation("control.oas_validate", "complete-file", {{"file", jstr(f.name)}}, jobj({{"file", jstr(f.name)}}), "complete independently encoded OASIS file does not validate as expected", "sub=control");
+            }
+            CORPUS.push_back(f);
+        }
+        fclose(idx);
+    }
 }
 
 // ------------------------------------------------------------------ one crash point
@@ -200,7 +241,6 @@ static void viol(const CorpusFile& f, size_t cut, const std::string& reader, con
 static bool same_tm(const tm& a, const tm& b) {
     return a.tm_year == b.tm_year && a.tm_mon == b.tm_mon && a.tm_mday == b.tm_mday && a.tm_hour == b.tm_hour && a.tm_min == b.tm_min && a.tm_sec == b.tm_sec;
 }
-static bool is_error(ErrorCode e) { return (int)e >= (int)ErrorCode::ChecksumError; }
 
 static void run_cut(int fidx, size_t cut) {
     const CorpusFile& f = CORPUS[fidx];
